@@ -21,7 +21,7 @@ RULE = ('arrays and loaded samples (0..N events, integer and float) with values 
         'value; distinct = digest(data, call)')
 ASSUMPTIONS = ['ellipse boundary band |q-1| <= 1e-9 is excluded from the verdict (counted as ellipse_boundary_events)']
 MIN_CHECKS = {'quick': 10000, 'thorough': 200000}
-REQUIRED_COUNTERS = ['chk:start_end', 'chk:high_low', 'chk:ellipse', 'chk:short-vs-long', 'chk:refusal']
+REQUIRED_COUNTERS = ['chk:start_end', 'chk:high_low', 'chk:ellipse', 'chk:short-vs-long', 'chk:refusal', 'chk:form']
 
 
 def same_gated(a, b):
@@ -114,6 +114,20 @@ def run(ctx):
                 short = G.high_low(data, ch, hi, lo)
                 ctx.counters['chk:short-vs-long'] += 1
                 ctx.check(same_gated(short, o.value.gated_data), 'high_low:short-vs-long', cid, channels=ch)
+            if not o.raised and (isinstance(ch, list) or isinstance(hi, list) or isinstance(lo, list)) and rng.random() < 0.6:
+                # the same call with list arguments in another legal form (tuple / ndarray / NumPy scalars): a refused
+                # form is observed only; an accepted form is judged by the in-situ monitor and must give the same mask
+                fname, fch = core.pick_form(rng, ch) if isinstance(ch, list) else ('same', ch)
+                conv = [tuple, np.array, list][int(rng.integers(3))]
+                fhi = conv(hi) if isinstance(hi, list) else (np.float64(hi) if hi is not None and rng.random() < 0.5 else hi)
+                flo = conv(lo) if isinstance(lo, list) else (np.float64(lo) if lo is not None and rng.random() < 0.5 else lo)
+                o2 = core.attempt(G.high_low, data, fch, fhi, flo, True)
+                ctx.counters['chk:form'] += 1
+                if o2.raised:
+                    ctx.note('form-refused:high_low:' + fname + '/' + conv.__name__)
+                else:
+                    ctx.check(np.array_equal(o2.value.mask, o.value.mask), 'form:high_low-mask-depends-on-argument-form', cid,
+                              form=[fname, conv.__name__], channels=ch, high=hi, low=lo)
             on_thr = vals.size > 0 and any(t is not None and np.any(vals == np.asarray(t)) for t in (hi, lo))
             ctx.case_done(class_key=('high_low', kind, ('all', 'scalar', 'list', 'list')[form],
                                      'hi-' + ('def' if hi is None else 'exp'), 'lo-' + ('def' if lo is None else 'exp')),
@@ -176,6 +190,21 @@ def run(ctx):
                     short = G.ellipse(d2, ch, center, a, b, theta, log)
                 ctx.counters['chk:short-vs-long'] += 1
                 ctx.check(same_gated(short, o.value.gated_data), 'ellipse:short-vs-long', cid, channels=ch)
+            if not o.raised and rng.random() < 0.6:
+                fname, fch = core.pick_form(rng, ch)
+                conv = [tuple, np.array, (lambda c: np.array(c, dtype=np.float32).astype(np.float64).tolist())][int(rng.integers(3))]
+                fcenter = conv(center)
+                exact = np.array_equal(np.asarray(fcenter, dtype=float), np.asarray(center, dtype=float))
+                fa = np.float64(a) if rng.random() < 0.5 else a
+                fth = np.float64(theta) if rng.random() < 0.5 else theta
+                with np.errstate(all='ignore'):
+                    o2 = core.attempt(G.ellipse, d2, fch, fcenter, fa, b, fth, log, True)
+                ctx.counters['chk:form'] += 1
+                if o2.raised:
+                    ctx.note('form-refused:ellipse:' + fname)
+                elif exact:
+                    ctx.check(np.array_equal(o2.value.mask, o.value.mask), 'form:ellipse-mask-depends-on-argument-form', cid,
+                              form=fname, channels=ch, center=center)
             ctx.case_done(class_key=('ellipse', kind, 'log' if log else 'lin', 'planted' if planted else 'free'),
                           nontrivial=planted > 0 or N > 10, distinct_key=core.digest(cid, 'el', ch, center, a, b, theta, log),
                           sample={'gate': 'ellipse', 'center': center, 'a': a, 'b': b, 'theta': theta, 'log': log}
